@@ -56,8 +56,9 @@ def oracle(prog, perm):
 
 
 def run(ctx):
+    proofs__ = common.proof_status_async([(FAMILY, PROPFILE)] + gen_order.PROOFS + gen_order2.PROOFS + gen_plumb.PROOFS_ORDER)      # re-checked in the background while the cases run
     out = common.Outcome()
-    out.proof = common.proof_status_many([(FAMILY, PROPFILE)] + gen_order.PROOFS + gen_order2.PROOFS + gen_plumb.PROOFS_ORDER)
+    out.proof = proofs__.result()
     pg = G.ProgGen(ctx.rng, shuffle=False)
     n = ctx.scale(30, 300)
     K = ctx.scale(2, 3)
@@ -117,10 +118,10 @@ def run(ctx):
     # (coq/GenOrder: Main_order_invariant under the decidable side condition order_ok): the permutations the harness
     # performs are checked to be admissible in the theorem's sense, order_ok is evaluated on both programs, and the
     # whole-program correspondence is run on the permuted program
-    gen_order.extra(ctx, out, 20, 400)
+    gen_order.extra(ctx, out, 14, 400)
     # the same for ALL programs of the multi-currency model and their admissible permutations (coq/GenOrder2:
     # Main2_order_invariant under order_ok2)
-    gen_order2.extra(ctx, out, 24, 400)
+    gen_order2.extra(ctx, out, 16, 400)
     out.failures.extend(finding_probes())
     return out
 
